@@ -196,7 +196,14 @@ def rule_limits(ck):
     ck.need("config" in params or any("config" in p for p in params), "parse_multipart_form_data has no config parameter")
     cfgp = [p for p in params if "config" in p][0]
     data_params = [p for p in params[:2]]
-    facts = must_facts(fi.cfg)
+    from ..x_resolve import widen_facts
+    _mf = must_facts(fi.cfg)
+    class _Lazy(dict):
+        def __missing__(self, k):
+            self[k] = widen_facts(fi, _mf[k])   # named booleans / local aliases of the limits are looked through
+            return self[k]
+
+    facts = _Lazy()
     # fields of the config dataclass
     cls = ck.repo.cls(HU, "ParseMultipartConfig")
     fields = {}
